@@ -7,6 +7,13 @@ import Heathcliff.Proofs.GenScalingSpec
 import Heathcliff.Proofs.GenPolySpec
 import Heathcliff.Proofs.GenEvalCt
 import Heathcliff.Proofs.GenEvalCt3
+import Heathcliff.Proofs.C02PH
+import Heathcliff.Proofs.C02PW
+import Heathcliff.Proofs.C02PG
+import Heathcliff.Proofs.C02PGW
+import Heathcliff.Proofs.C02PF
+import Heathcliff.Proofs.C02PFW
+import Heathcliff.Proofs.C02PRW
 
 /- Property theorems only (statements verbatim; proofs are the helper lemmas of Heathcliff/Proofs). -/
 namespace HC.C02
@@ -498,5 +505,151 @@ example : HC.GenC.ct_translate_inplace_eq (List.replicate 12 1) 3 1 (List.replic
       (HC.ctTranslate HC.c02v_exLevel (HC.unflattenCt HC.c02v_exLevel 3 (List.replicate 12 1) true 1)
         (HC.unflattenCt HC.c02v_exLevel 2 (List.replicate 8 2) true 1) false) :=
   HC.gt_translate_inplace_eq_general HC.c02v_exLevel _ _ 3 2 true 1 false _ (Or.inr (by decide)) (by decide) (by decide) (by decide) (by decide) (by decide)
+
+/-! ### THE PROGRAM-LEVEL HOMOMORPHISM THEOREM (BGV), by induction over programs of model operations
+    (program syntax / evaluation / a-priori bookkeeping: Model/Program.lean; proofs: Proofs/C02P.lean, C02PL.lean, C02PH.lean; witness: C02PW.lean) -/
+
+/-- HOM (BGV, ring operations).  For EVERY level the constructors build (`c02p_LevelOK`: tables, CRT base, decryption constants; any degree
+    N = 2^k, any chain, any plain modulus), every secret key of length N, EVERY program over negate / add / sub (all size pairs, balancing of
+    unequal correction factors included) / multiply, square (all size pairs) / multiply_plain, and every assignment of inputs:
+    * each ciphertext input read by the program is canonical, NTT form, has the unit correction factor `(inB i).1`, and its exact phase is
+      congruent modulo Q to some `v_i` with `v_i ≡ cf_i·M_i (mod t)`, `‖v_i‖∞ ≤ (inB i).2` (`c02p_Enc`; fresh: `v = m + t·e`, `c02p_enc_of_fresh`),
+    * each plaintext input read is canonical (NTT form) with integer coefficient-form reading `PL k`, `‖PL k‖∞ ≤ plB k`,
+    * the MODEL DOES NOT REFUSE the program (`eval = .ok r`; refusals propagate),
+    * the decidable a-priori bound `BProg.noiseUB` (‖a ⋆ b‖ ≤ N‖a‖‖b‖, ‖e1·a ± e2·b‖ ≤ e1‖a‖ + e2‖b‖) returns `(f, V)` with `2·V < Q`;
+    then `bgvDecrypt (eval prog)` succeeds and equals the shadow program evaluated in ℤ[X]/(X^N+1), read modulo t. -/
+theorem hom_program_bgv {l : Level} (h : c02p_LevelOK l) {sk : Array Int} (hsk : sk.size = l.n) (cts : Nat → Ct) (pls : Nat → RnsPoly)
+    (M PL : Nat → Nat → Int) (inB : Nat → Nat × Nat) (plB : Nat → Nat) (prog : BProg) {r : Ct}
+    (hin : ∀ i ∈ prog.ctInputs, c02p_Enc l sk (cts i) (M i) (inB i).2 ∧ (cts i).cf = (inB i).1)
+    (hpl : ∀ k ∈ prog.plInputs, RnsCanon l (pls k) ∧ c02p_PlainLift l (pls k) (PL k) ∧ ∀ j, j < l.n → (PL k j).natAbs ≤ plB k)
+    (hev : prog.eval l cts pls = .ok r) {f V : Nat} (hub : prog.noiseUB l.t l.n inB plB = some (f, V))
+    (hV : 2 * V < l.tool.baseQ.prod) :
+    bgvDecrypt l sk r = .ok (Spec.trim (Array.ofFn (n := l.n) fun j => Spec.imod (prog.shadow l.n M PL j.val) l.t.value)) :=
+  HC.hom_program_bgv h hsk cts pls M PL inB plB prog hin hpl hev hub hV
+
+/-- the induction behind HOM: wherever the model succeeds the bookkeeping succeeds, returns the RESULT's correction factor, and the result
+    encrypts the shadow value with phase norm at most the returned bound (so results can be fed to further programs) -/
+theorem hom_program_bgv_noiseUB : type_of% @HC.hom_program_bgv_noiseUB := @HC.hom_program_bgv_noiseUB
+
+/-- per operation, on EXACT phases (`Spec.phase`, what `bgvDecrypt_eq_spec` decodes), modulo Q, coefficient-wise; each also re-establishes
+    the invariant (canonical, NTT form, unit correction factor) for its result -/
+theorem ctNegate_exact_phase : type_of% @HC.c02p_negate_ph := @HC.c02p_negate_ph
+/-- add / sub, ANY two sizes, equal factors (e1 = e2 = 1) or balanced: ph(r) ≡ e1·ph(a) ± e2·ph(b), e1·cf_a ≡ e2·cf_b ≡ cf_r (mod t) -/
+theorem ctTranslateBalanced_exact_phase : type_of% @HC.c02p_translate_ph := @HC.c02p_translate_ph
+/-- multiply / square, ANY two sizes: ph(r) ≡ ph(a) ⋆ ph(b) (negacyclic), cf_r = cf_a·cf_b mod t -/
+theorem bgvMultiply_exact_phase : type_of% @HC.c02p_mul_ph := @HC.c02p_mul_ph
+/-- multiply_plain (NTT-form plaintext with integer reading P): ph(r) ≡ ph(a) ⋆ P -/
+theorem ctMultiplyPlainNtt_exact_phase : type_of% @HC.c02p_mulPlain_ph := @HC.c02p_mulPlain_ph
+
+/-- decryption of any ciphertext satisfying the invariant with `2·V < Q` is its message modulo t -/
+theorem bgvDecrypt_of_enc : type_of% @HC.c02p_decrypt_of_enc := @HC.c02p_decrypt_of_enc
+/-- the input hypothesis from the usual description of a ciphertext: exact phase `cf·m + t·e`, `‖m‖ ≤ Bm`, `‖e‖ ≤ Be` -/
+theorem enc_of_fresh : type_of% @HC.c02p_enc_of_fresh := @HC.c02p_enc_of_fresh
+/-- the level bundle is what the constructors establish -/
+theorem levelOK_of_built : type_of% @HC.c02p_levelOK_of_built := @HC.c02p_levelOK_of_built
+
+/-- NON-VACUITY (N = 4, q = {97, 113}, t = 17, constructor-built level, two fresh ciphertexts, depth-2 program (x0 + x1)·(−x0) − x1 with a
+    2×2 product and a mixed-size 3 − 2 subtraction): every hypothesis of HOM is discharged and the conclusion evaluates to (8, 10, 16, 3) -/
+theorem hom_program_bgv_example : type_of% @HC.hom_program_bgv_example := @HC.hom_program_bgv_example
+theorem hom_program_bgv_example_val : type_of% @HC.hom_program_bgv_example_val := @HC.hom_program_bgv_example_val
+
+/-! ### levelled programs: the same operations plus `mod_switch_to_next` along a chain (Model/Program.lean `LProg`; Proofs/C02PM.lean, C02PG.lean,
+    witness C02PGW.lean) -/
+
+/-- BGV `mod_switch_to_next` on exact phases: for `phase(a) ≡ v (mod Q)` there are `v'`, `Δ` with `phase'(r) ≡ v' (mod Q')`,
+    `q_L·v' = v + Δ`, `t ∣ Δ`, `‖Δ‖∞ ≤ q_L·t·Σ_{k<size} S^k` for every bound `S ≥ ‖s‖₁`; the result is canonical at the next level, in NTT form,
+    with the unit correction factor `cf·q_L^{-1} mod t` -/
+theorem modSwitchScaleNext_exact_phase : type_of% @HC.c02p_modswitch_ph := @HC.c02p_modswitch_ph
+
+/-- … as a step of the induction: same message, norm `≤ V / q_L + t·Σ_{k<size} S^k` -/
+theorem modSwitchScaleNext_enc : type_of% @HC.c02p_step_ms := @HC.c02p_step_ms
+
+/-- HOM (BGV, levelled).  For every chain of constructor-built levels (`c02p_ChainOK`: bundles of every level, consecutive levels share
+    moduli / tables / plain modulus), every secret with `‖s‖₁ ≤ S`, EVERY program over negate / add / sub / multiply / multiply_plain /
+    mod_switch_to_next / relinearize (operands of different levels refused, switching below the last level refused, relinearisation of sizes
+    above 3 outside the program class; if the program relinearises: `rk` is a key for s² satisfying the KEY EQUATION with errors `t·(…)`,
+    `‖e_i‖∞ ≤ Be`, at a well-formed key level whose first moduli / tables are those of every level: `c02p_KeyLevelOf`, `c02p_RelinOK`),
+    inputs as in HOM at their levels:
+    if the model returns `(lv, r)` and the bookkeeping bound `V` satisfies `2·V < Q_lv`, then `bgvDecrypt` at level `lv` returns the shadow
+    value modulo t. -/
+theorem hom_program_bgv_levelled {chain : Nat → Level} {top : Nat} (hch : c02p_ChainOK chain top) {sk : Array Int}
+    (hsk : sk.size = (chain top).n) {S : Nat} (hS : ∑ k ∈ range (chain top).n, (c02p_sk sk k).natAbs ≤ S)
+    (kl : KeyLevel) (rk : KSKey) (e : Nat → Nat → Int) (G : Nat → Int) (A Be : Nat)
+    (cts : Nat → Nat × Ct) (pls : Nat → Nat × RnsPoly) (M PL : Nat → Nat → Int) (inB : Nat → Nat × Nat × Nat × Nat)
+    (plB : Nat → Nat × Nat) (prog : LProg) {lv : Nat} {r : Ct}
+    (hrk : prog.usesRelin = true → ∀ c, c ≤ top → c02p_KeyLevelOf kl (chain c) ∧ c02p_RelinOK kl (chain c).size rk (c02p_sk sk) e G A Be)
+    (hin : ∀ i ∈ prog.ctInputs, (cts i).1 ≤ top ∧ c02p_Enc (chain (cts i).1) sk (cts i).2 (M i) (inB i).2.2.2 ∧
+        inB i = ((cts i).1, (cts i).2.cf, (cts i).2.polys.size, (inB i).2.2.2))
+    (hpl : ∀ k ∈ prog.plInputs, RnsCanon (chain (pls k).1) (pls k).2 ∧ c02p_PlainLift (chain (pls k).1) (pls k).2 (PL k) ∧
+        (∀ j, j < (chain top).n → (PL k j).natAbs ≤ (plB k).2) ∧ (plB k).1 = (pls k).1)
+    (hev : prog.eval chain kl rk cts pls = .ok (lv, r)) {st : Nat × Nat × Nat} {V : Nat}
+    (hub : prog.noiseUB chain kl A Be S inB plB = some (st.1, st.2.1, st.2.2, V)) (hV : 2 * V < (chain lv).tool.baseQ.prod) :
+    bgvDecrypt (chain lv) sk r = .ok (Spec.trim (Array.ofFn (n := (chain lv).n) fun j =>
+      Spec.imod (prog.shadow (chain top).n M PL j.val) (chain lv).t.value)) :=
+  HC.hom_program_bgv_levelled hch hsk hS kl rk e G A Be cts pls M PL inB plB prog hrk hin hpl hev hub hV
+
+/-- the induction behind it (level stays within the chain, bookkeeping = (level, factor, size, bound) of the result) -/
+theorem hom_program_bgv_levelled_inv : type_of% @HC.c02p_lprog_inv := @HC.c02p_lprog_inv
+
+/-- BGV relinearisation (size 3 → 2) on exact phases: phase(r) ≡ phase(a) + ν (mod Q), t ∣ ν, P·‖ν‖∞ ≤ dsz·A·N·Be + P·t·(1 + ‖s‖₁) -/
+theorem relinearize_exact_phase : type_of% @HC.c02p_relin_ph := @HC.c02p_relin_ph
+/-- … as a step of the induction: same message and factor, norm `≤ V + ⌊(dsz·A·N·Be + P·t·(1 + S)) / P⌋` -/
+theorem relinearize_enc : type_of% @HC.c02p_step_relin := @HC.c02p_step_relin
+
+/-- NON-VACUITY on a two-level chain built by `Drv.Sch.mkLevel` (q = {97, 113, 193} → {97, 113}, t = 17): program
+    mod_switch(x0·x1) − mod_switch(x0); result at the lower level with correction factor 3; decrypts to (0, 3, 14) -/
+theorem hom_program_bgv_levelled_example : type_of% @HC.hom_program_bgv_levelled_example := @HC.hom_program_bgv_levelled_example
+theorem hom_program_bgv_levelled_example_val : type_of% @HC.hom_program_bgv_levelled_example_val := @HC.hom_program_bgv_levelled_example_val
+theorem chainOK_example : type_of% @HC.c02p_wChainOK := @HC.c02p_wChainOK
+
+/-! ### BFV: the program theorem for the ring operations (Model/Program.lean `FProg`; Proofs/C02PF.lean).  PARTIAL with respect to the
+    operation list of the property: BFV plaintext operations (the Δ-scaling of `multiply_add_plain` / `multiply_sub_plain` and the
+    `multiply_plain` routes), modulus switching and relinearisation are proved per operation elsewhere (C01, C05U, C04K) but NOT composed
+    into the BFV induction. -/
+
+/-- HOM (BFV, ring operations).  For every BFV level satisfying the constructor bundles (`c02f_LevelOK`: `MulOK`, `DecOK`, BEHZ window for
+    sizes ≤ 16), every secret with `‖s‖₁ ≤ S`, EVERY program over negate / add / sub (all size pairs) / multiply, square (BEHZ, all size
+    pairs), inputs canonical in coefficient form with invariant noise `‖[t·x_i]_Q‖∞ ≤ (inB i).2 < Q/2` and message part ≡ `M i` (mod t):
+    if the model does not refuse, the decidable bookkeeping `FProg.noiseUB` (sum of noises for add / sub, the BEHZ growth bound `c02x_F / 2^34`
+    for products, `2V < Q` checked at every node) returns `(s, V)` and `V` is below the BEHZ decryption threshold
+    `2·γ·V + 2·|q|·Q ≤ Q·γ`, then `bfvDecrypt (eval prog)` succeeds and equals the shadow program in ℤ[X]/(X^N+1) read modulo t. -/
+theorem hom_program_bfv_partial {l : Level} {T : Array NTTTables} (h : c02f_LevelOK l T) {sk : Array Int} (hsk : sk.size = l.n) {S : Nat}
+    (hS : ∑ k ∈ range l.n, (sk.getD k 0).natAbs ≤ S) (cts : Nat → Ct) (M : Nat → Nat → Int) (inB : Nat → Nat × Nat) (prog : FProg)
+    {r : Ct} (hin : ∀ i ∈ prog.ctInputs, c02f_Enc l sk (cts i) (M i) (inB i).2 ∧ (cts i).polys.size = (inB i).1)
+    (hev : prog.eval l T cts = .ok r) {s V : Nat}
+    (hub : prog.noiseUB l.n l.t.value l.size l.tool.baseQ.prod S inB = some (s, V))
+    (hγ : 2 * l.tool.gamma.value * V + 2 * l.size * l.tool.baseQ.prod ≤ l.tool.baseQ.prod * l.tool.gamma.value) :
+    bfvDecrypt l sk r = .ok (Spec.trim (Array.ofFn (n := l.n) fun j => Spec.imod (prog.shadow l.n M j.val) l.t.value)) :=
+  HC.hom_program_bfv_partial h hsk hS cts M inB prog hin hev hub hγ
+
+/-- the induction behind it -/
+theorem hom_program_bfv_inv : type_of% @HC.c02f_prog_inv := @HC.c02f_prog_inv
+/-- BFV negate / add / sub on exact phases of coefficient-form ciphertexts, all size pairs -/
+theorem ctNegate_exact_phase_coeff : type_of% @HC.c02f_negate_ph := @HC.c02f_negate_ph
+theorem ctTranslate_exact_phase_coeff : type_of% @HC.c02f_translate_ph := @HC.c02f_translate_ph
+/-- invariant noise and message part of a linear combination `x_r ≡ α·x_a + β·x_b (mod Q)` -/
+theorem bfv_noise_linear : type_of% @HC.c02f_noise_lin := @HC.c02f_noise_lin
+/-- the BEHZ product as a step of the induction (from `bfvMultiply_noise`, `bfvMultiply_canon`) -/
+theorem bfvMultiply_enc : type_of% @HC.c02f_step_mul := @HC.c02f_step_mul
+/-- decryption below the BEHZ threshold; the input hypothesis from any split `t·x = Q·m + ν` with small ν -/
+theorem bfvDecrypt_of_enc : type_of% @HC.c02f_decrypt_of_enc := @HC.c02f_decrypt_of_enc
+theorem bfv_enc_of_split : type_of% @HC.c02f_enc_of_split := @HC.c02f_enc_of_split
+
+/-- NON-VACUITY (BFV): the level `Drv.Sch.mkLevel .bfv 4 [97, 113, 193] 17` with Bsk tables built by `NTTTables.new` satisfies `c02f_LevelOK`
+    (a concrete instance of `MulOK`, `DecOK` and the BEHZ window), and the program x0·x1 − x0 on two fresh ciphertexts satisfies every
+    hypothesis of `hom_program_bfv_partial` (bookkeeping (3, 10986), Q = 2115473); the result decrypts to (0, 3, 14) -/
+theorem bfv_levelOK_example : type_of% @HC.c02f_wLevelOK := @HC.c02f_wLevelOK
+theorem hom_program_bfv_example : type_of% @HC.hom_program_bfv_example := @HC.hom_program_bfv_example
+theorem hom_program_bfv_example_val : type_of% @HC.hom_program_bfv_example_val := @HC.hom_program_bfv_example_val
+
+/-- NON-VACUITY of the relinearisation hypotheses together with the level bundles: ciphertext level `mkLevel .bgv 4 [97, 113] 17`, key level
+    = moduli / tables / constants of `mkLevel .bgv 4 [97, 113, 193] 17` (P = 193), a GENUINE relinearisation key for s² (two digits, gadget
+    elements 10283 / 679, errors 17·ε_i) satisfying the key equation (`relinKeyEq_example`), `c02p_RelinOK`, `c02p_KeyLevelOf`; the program
+    relin(x0·x1) satisfies every hypothesis of `hom_program_bgv_levelled` (bookkeeping (0, 1, 2, 1747)) and decrypts to (1, 5, 14, 16) -/
+theorem relinKeyEq_example : type_of% @HC.c02p_rKeyEq := @HC.c02p_rKeyEq
+theorem relinOK_example : type_of% @HC.c02p_rRelinOK := @HC.c02p_rRelinOK
+theorem keyLevelOf_example : type_of% @HC.c02p_rKeyLevelOf := @HC.c02p_rKeyLevelOf
+theorem hom_program_bgv_relin_example : type_of% @HC.hom_program_bgv_relin_example := @HC.hom_program_bgv_relin_example
+theorem hom_program_bgv_relin_example_val : type_of% @HC.hom_program_bgv_relin_example_val := @HC.hom_program_bgv_relin_example_val
 
 end HC.C02
